@@ -85,7 +85,30 @@ RULE = ("random operator expressions (order 1..4, rectangular modes with row/col
         "profiles on both operands, batch shapes with 0..3 leading dims, float64/float32/complex128) with small-integer cores, exact comparison; "
         "non-trivial = some interior rank > 1 on an operand or a batched dense product; distinct = distinct (expression structure, dtype) key")
 
+def exhaustive_structures(rng):
+    """thorough tier: EVERY size structure of A@x, x@A, A@B, A@dense, A.t(), A+-*B for order 1..2 with row / column / inner sizes in {1,2,3}"""
+    import itertools, torch
+    out = []
+    mk4 = lambda M, N: Lit4(ttgen.rand_ttm_cores(rng, list(M), list(N), ttgen.rand_ranks(rng, len(M), 2), False))
+    mk3 = lambda N: Lit3(ttgen.rand_tt_cores(rng, list(N), ttgen.rand_ranks(rng, len(N), 2), False, lo=-2, hi=2))
+    for d in (1, 2):
+        for M in itertools.product((1, 2, 3), repeat=d):
+            for N in itertools.product((1, 2, 3), repeat=d):
+                A = mk4(M, N)
+                out.append((Op("OMatmul", [A, mk3(N)], [[d, 0]]), "exhaustive A@x", torch.float64, coqrun.Z))
+                out.append((Op("OMatmul", [mk3(M), A], [[d, 1]]), "exhaustive x@A", torch.float64, coqrun.Z))
+                out.append((Op("OTr", [A], [[d]]), "exhaustive transpose", torch.float64, coqrun.Z))
+                out.append((Op(rng.choice(["OAdd", "OSub", "OMul"]), [A, mk4(M, N)]), "exhaustive ttm-binary", torch.float64, coqrun.Z))
+                for nb in (0, 1, 2):
+                    X = ttgen.rand_core(rng, tuple([2] * nb + list(N)), False, lo=-2, hi=2)
+                    out.append((Op("OMatmul", [A, Dense(X)], [[d, 3]]), "exhaustive A@dense", torch.float64, coqrun.Z))
+                for K in itertools.product((1, 2, 3), repeat=d):
+                    out.append((Op("OMatmul", [A, mk4(N, K)], [[d, 2]]), "exhaustive A@B", torch.float64, coqrun.Z))
+    return out
+
 def run(tier, seed, replay=None):
     import torch
     dtypes = [(torch.float64, coqrun.Z), (torch.complex128, coqrun.ZI), (torch.float64, coqrun.Z), (torch.float32, coqrun.Z)]
-    return exprcheck.run(PID, tier, seed, gen_case, 300, 5000, RULE, nontrivial, dtypes)
+    return exprcheck.run(PID, tier, seed, gen_case, 300, 5000, RULE + ("; thorough tier additionally enumerates EVERY size structure of the products, the transpose and the "
+                         "operator sums for order 1..2 with sizes 1..3" if tier == "thorough" else ""), nontrivial, dtypes,
+                         extra_cases=exhaustive_structures if tier == "thorough" else None)
